@@ -270,26 +270,33 @@ impl Server {
 
     fn handle_health_check(&mut self) {
         let listener = self.health_listener.as_ref().unwrap();
-        match listener.accept() {
-            Ok((ref mut stream, src_addr)) => {
-                info!("health check from {}", src_addr);
-                self.stats_recorder.add_health_check(&src_addr.ip());
 
-                match stream.write_all(HTTP_RESPONSE.as_bytes()) {
-                    Ok(_) => (),
-                    Err(e) => warn!("error writing health check {}", e),
-                };
+        // The listener is edge-triggered: accept until there are no more pending connections,
+        // otherwise connections that arrived together wait for an unrelated later one.
+        loop {
+            match listener.accept() {
+                Ok((ref mut stream, src_addr)) => {
+                    info!("health check from {}", src_addr);
+                    self.stats_recorder.add_health_check(&src_addr.ip());
 
-                match stream.shutdown(Shutdown::Both) {
-                    Ok(_) => (),
-                    Err(e) => warn!("error in health check socket shutdown {}", e),
+                    match stream.write_all(HTTP_RESPONSE.as_bytes()) {
+                        Ok(_) => (),
+                        Err(e) => warn!("error writing health check {}", e),
+                    };
+
+                    match stream.shutdown(Shutdown::Both) {
+                        Ok(_) => (),
+                        Err(e) => warn!("error in health check socket shutdown {}", e),
+                    }
                 }
-            }
-            Err(ref e) if e.kind() == ErrorKind::WouldBlock => {
-                debug!("blocking in TCP health check");
-            }
-            Err(e) => {
-                warn!("unexpected health check error {}", e);
+                Err(ref e) if e.kind() == ErrorKind::WouldBlock => {
+                    debug!("blocking in TCP health check");
+                    break;
+                }
+                Err(e) => {
+                    warn!("unexpected health check error {}", e);
+                    break;
+                }
             }
         }
     }
